@@ -400,7 +400,15 @@ def task_sweep(task):
     cold_pool = [k for k in range(1, total + 1) if k not in set(hot)]
     cold_sel = sorted(rng.sample(cold_pool, min(len(cold_pool), cap - len(hot_sel))))
     out = {"family": fam, "pair": [na, nb], "lines": total, "hot": len(hot), "points": 0, "hot_points": 0, "complete_hot": len(hot_sel) == len(hot), "viols": []}
-    for k in hot_sel + cold_sel:
+    import time as _time
+
+    order = hot_sel + cold_sel
+    rng.shuffle(order)             # a wall-clock cap may stop the sweep early: no systematic blind spot at the end
+    t_end = _time.time() + task.get("wall_s", 1e9)
+    for k in order:
+        if _time.time() > t_end:
+            out["complete_hot"] = False
+            break
         scn = {"threads": [[{"name": na, "op": a}], [{"name": nb, "op": b}]], "strategy": {"kind": "insert", "thread": "T0", "at_line": k}, "sched_seed": k}
         child = proc.in_child(_scenario_child, scn, timeout=300)
         out["points"] += 1
@@ -508,7 +516,7 @@ def run(ctx):
     sweep_tasks = []
     for pr in chosen:
         keys = {_op_key(pr[2]), _op_key(pr[4])}
-        sweep_tasks.append({"pair": pr, "seed": ctx.seed, "max_points": 100 if quick else 400, "alone": {k: alone_map[k] for k in keys if k in alone_map}})
+        sweep_tasks.append({"pair": pr, "seed": ctx.seed, "max_points": 100 if quick else 400, "wall_s": 45.0 if quick else 600.0, "alone": {k: alone_map[k] for k in keys if k in alone_map}})
     sweep_done = ctx.map("task_sweep", sweep_tasks, budget_s=ctx.budget_s * 0.5, force=True, min_tasks=12)
     violations, inter, samples = [], set(), []
     n_eval = steps = switches = contended = shared = open_after = 0
